@@ -8,3 +8,11 @@ package common
 //@   vpure
 //@   ensures addr.Is4() ==> result == 1
 //@   ensures !addr.Is4() ==> result == 28
+
+// A path is accepted only when the directory of the file, taken relative to the allowed directory,
+// does not start with ".." (relv() names the value filepath.Rel returned).
+//@ func EnsureFileInSubDir
+//@   ghostfn relv() string
+//@   at call filepath.Rel#1 assert a0 == dir && a1 == filepath.Dir(filePath)
+//@   at call filepath.Rel#1 assume-after nth(result, 0) == relv()
+//@   ensures err == nil ==> len(dir) > 0 && calls("filepath.Rel") == 1 && !strings.HasPrefix(relv(), "..")
